@@ -95,3 +95,45 @@ def attr_memos(ctx, modname, families, what, why):
                 ctx.violate('%s:%s.%s' % (modname, cname, mname), '%s.%s assigns self.%s, on which the cached self.%s (filled by %s.%s) depends, without resetting the cache' % (cname, mname, attr, memo.attr, memo.cls, memo.method), node, why)
     ctx.saw('%s: %d attribute memos analysed' % (what, n))
     return n
+
+
+def history_reads(ctx, modname, families, what, why):
+    """A memo whose value depends on the arguments of the call that filled it (Key._address_obj: the address for the compressed flag,
+    prefix, script type and encoding asked for LAST) is history: only its own accessor, which re-validates it against the arguments, may
+    read it. A property that hands the memo out unvalidated is history too. Every other method of the family that reads either one
+    computes its result from whatever an earlier, unrelated call left behind."""
+    m = ctx.repo.mod(modname)
+    n = 0
+    for fam in families:
+        memos = []
+        for c in fam:
+            if c not in m.classes:
+                raise AnalysisError('anchor class %s:%s vanished' % (modname, c))
+            memos += cache.attr_memos(m, c)
+        hist = {}
+        for memo in memos:
+            if getattr(memo, 'param_deps', None):
+                hist.setdefault(memo.attr, set()).add(memo.method)
+        # properties that return the memo as it is
+        props = {}
+        for c in fam:
+            for name, f in cache.class_methods(m, c).items():
+                if cache._is_property(f):
+                    for r in ast.walk(f):
+                        if isinstance(r, ast.Return) and isinstance(r.value, ast.Attribute) and isinstance(r.value.value, ast.Name) and r.value.value.id == 'self' and r.value.attr in hist:
+                            props[name] = r.value.attr
+        ctx.saw('%s: argument-dependent memos %s; properties handing them out: %s' % ('/'.join(fam), sorted(hist), sorted(props)))
+        for c in fam:
+            for name, f in sorted(cache.class_methods(m, c).items()):
+                if name == '__init__' or name in props:
+                    continue
+                for a in ast.walk(f):
+                    if isinstance(a, ast.Attribute) and isinstance(a.value, ast.Name) and a.value.id == 'self' and isinstance(a.ctx, ast.Load):
+                        memo_attr = a.attr if a.attr in hist else props.get(a.attr)
+                        if memo_attr is None or name in hist.get(memo_attr, ()):
+                            continue
+                        n += 1
+                        ctx.violate('%s:%s.%s' % (modname, c, name), 'reads self.%s, i.e. the value the last %s(...) call left in self.%s for ITS arguments, instead of asking the accessor for the form it needs' % (
+                            a.attr, '/'.join(sorted(hist[memo_attr])), memo_attr), a, why)
+    ctx.saw('%s: reads of argument-dependent memos outside their accessor: %d' % (what, n))
+    return n
